@@ -8,50 +8,51 @@ From Verif Require Import SendReq.Model SendReq.ProofsBound SendReq.ProofsSelect
   SendReq.ProofsFlags SendReq.ProofsResult SendReq.ProofsLasso SendReq.ProofsBudget.
 
 (* --- boundedness --------------------------------------------------------------------------------------------- *)
-(* Every attempt uses up one of the maxReplicaAttempt (10) attempts of some replica; attempts are only ever given
-   back by replica.onUpdateLeader, i.e. by a NotLeader answer whose leader hint names an exhausted replica (a "re-arm",
-   event ERearm).  Hence: attempts <= 10 * replicas + re-arms, whatever the script, the budget or the oracles. *)
+(* Every attempt uses up one of the maxReplicaAttempt (10) attempts of some replica; attempts are only ever given back by
+   replica.onUpdateLeader(maxRearm), i.e. by a NotLeader answer whose leader hint names an exhausted replica (a "re-arm",
+   event ERearm), and each replica is re-armed at most maxRearm = replicas - 1 times (fix cb7d671 of finding F10).
+   Hence, for ALL scripts, budgets and oracle inputs, without any hypothesis: *)
+Theorem C10_bounded : forall c script rands sleeps,
+  n_attempts (fst (run c script rands sleeps)) <=
+  max_replica_attempt * length (c_reps c) + length (c_reps c) * (length (c_reps c) - 1).
+Proof.
+  intros c script rands sleeps. pose proof (run_bound true c script rands sleeps). pose proof (run_rearms_fixed c script rands sleeps).
+  unfold run in *. lia.
+Qed.
+Print Assumptions C10_bounded.
+
+(* the finer accounting: attempts <= 10 * replicas + re-arms actually made *)
 Theorem C10_bounded_general : forall c script rands sleeps,
   n_attempts (fst (run c script rands sleeps)) <=
   max_replica_attempt * length (c_reps c) + n_rearms (fst (run c script rands sleeps)).
-Proof. exact (run_bound false). Qed.
+Proof. exact (run_bound true). Qed.
 Print Assumptions C10_bounded_general.
 
-(* The hypothesis that excludes finding F10, stated on the run: no NotLeader leader hint ever names a replica that has
-   already used up its maxReplicaAttempt attempts.  Under it one call makes at most B(cfg) = 10 * replicas attempts. *)
-Definition no_rearm (c : cfg) (script : list outcome) (rands : list nat) (sleeps : list N) : Prop :=
-  n_rearms (fst (run c script rands sleeps)) = 0.
-
-Theorem C10_bounded : forall c script rands sleeps,
-  no_rearm c script rands sleeps ->
-  n_attempts (fst (run c script rands sleeps)) <= max_replica_attempt * length (c_reps c).
-Proof. intros c script rands sleeps H. pose proof (run_bound false c script rands sleeps). unfold no_rearm, run in *. lia. Qed.
-Print Assumptions C10_bounded.
-
-(* The same with a hypothesis on the script alone: a script with h NotLeader-with-hint outcomes allows at most h re-arms. *)
+(* ... and re-arms need NotLeader-with-hint outcomes: a script with h of them allows at most h re-arms *)
 Theorem C10_bounded_by_hints : forall c script rands sleeps,
   n_attempts (fst (run c script rands sleeps)) <= max_replica_attempt * length (c_reps c) + n_hints script.
 Proof.
-  intros c script rands sleeps. pose proof (run_bound false c script rands sleeps). pose proof (run_rearms false c script rands sleeps).
+  intros c script rands sleeps. pose proof (run_bound true c script rands sleeps). pose proof (run_rearms true c script rands sleeps).
   unfold run in *. lia.
 Qed.
 Print Assumptions C10_bounded_by_hints.
 
-(* Without the hypothesis the bound is FALSE for the code as it is (finding F10): for the leader read of a healthy
-   3-replica region and the lasso  (N1 N0)^10 N1 (N0 N1)^k  of NotLeader answers whose hint alternates between
-   replicas 0 and 1, ONE call makes 22 + 2k attempts and never backs off. *)
-Theorem C10_bounded_refuted :
+(* Why the re-arm limit is needed (finding F10, repaired): with the rule before the fix ([run_before_fix]: every hint re-arms an
+   exhausted replica) no bound exists — for the leader read of a healthy 3-replica region and the lasso
+   (N1 N0)^10 N1 (N0 N1)^k  of NotLeader answers whose hint alternates between replicas 0 and 1, ONE call made 22 + 2k attempts
+   and never backed off.  The same lasso is a directed regression case of the check (see ex_lasso_terminates). *)
+Theorem C10_unbounded_before_fix :
   ~ (exists B, forall c script rands sleeps,
-       length (c_reps c) = 3 -> n_attempts (fst (run c script rands sleeps)) <= B) /\
-  (forall k, n_attempts (fst (run c0 (lasso k) [] [])) = 22 + 2 * k /\
-             n_backoffs (fst (run c0 (lasso k) [] [])) = 0 /\
+       length (c_reps c) = 3 -> n_attempts (fst (run_before_fix c script rands sleeps)) <= B) /\
+  (forall k, n_attempts (fst (run_before_fix c0 (lasso k) [] [])) = 22 + 2 * k /\
+             n_backoffs (fst (run_before_fix c0 (lasso k) [] [])) = 0 /\
              forallb is_hint (lasso k) = true).
 Proof.
   split.
   - intros [B H]. specialize (H c0 (lasso B) [] [] eq_refl). destruct (lasso_attempts B) as [A _]. lia.
   - intros k. destruct (lasso_attempts k) as [A B]. repeat split; auto. apply lasso_only_hints.
 Qed.
-Print Assumptions C10_bounded_refuted.
+Print Assumptions C10_unbounded_before_fix.
 
 (* --- flag discipline ----------------------------------------------------------------------------------------- *)
 (* (a) a write command (which enters without the stale flag) never leaves flagged as replica read or stale read;
@@ -67,8 +68,8 @@ Theorem C10_flags : forall c script rands sleeps,
   (c_read c = true -> c_val c = false -> run c script rands sleeps = ([], RError)).
 Proof.
   intros c script rands sleeps. split; [|split].
-  - intros R ST. unfold run, run_gen. rewrite R. cbn [andb]. apply (loop_write false c script R ST); cbn; rewrite R; reflexivity.
-  - apply (run_retry false).
+  - intros R ST. unfold run, run_gen. rewrite R. cbn [andb]. apply (loop_write true c script R ST); cbn; rewrite R; reflexivity.
+  - apply (run_retry true).
   - intros R V. unfold run, run_gen. rewrite R, V. reflexivity.
 Qed.
 Print Assumptions C10_flags.
@@ -84,20 +85,8 @@ Theorem C10_no_fabrication : forall c script rands sleeps evs r,
   | RRegionErr j => j + 1 = n_attempts evs /\ j < length script /\ is_region_err (nth j script OSuccess) = true
   | RPseudo | RError => True
   end.
-Proof. intros c script rands sleeps evs r H. apply (run_result false) in H. destruct r; auto. Qed.
+Proof. intros c script rands sleeps evs r H. apply (run_result true) in H. destruct r; auto. Qed.
 Print Assumptions C10_no_fabrication.
-
-(* --- the repair candidate for F10 ----------------------------------------------------------------------------- *)
-(* If replica.onUpdateLeader re-arms an exhausted replica AT MOST ONCE per selector ([run_rearm_once]: the model with that
-   single rule changed), the bound holds for all scripts without any hypothesis: 10 attempts per replica plus one re-arm
-   per replica.  A future fix of F10 can be checked against this model variant. *)
-Theorem C10_bounded_rearm_once : forall c script rands sleeps,
-  n_attempts (fst (run_rearm_once c script rands sleeps)) <= max_replica_attempt * length (c_reps c) + length (c_reps c).
-Proof.
-  intros c script rands sleeps. pose proof (run_bound true c script rands sleeps). pose proof (run_rearms_once c script rands sleeps).
-  unfold run_rearm_once. lia.
-Qed.
-Print Assumptions C10_bounded_rearm_once.
 
 (* --- when is an error returned ------------------------------------------------------------------------------- *)
 (* With C10_no_fabrication this characterises the three kinds of result: a response = the answer to the last attempt; a region
@@ -110,7 +99,7 @@ Theorem C10_error_only_when_spent : forall c script rands sleeps evs,
   (c_read c = true /\ c_val c = false) \/
   ((0 < c_max_sleep c)%N /\
    ((c_max_sleep c <= tot evs - exc evs)%N \/ ((excl_limit <= exc evs)%N /\ (c_max_sleep c <= exc evs)%N))).
-Proof. intros c script rands sleeps evs H. exact (run_error false c script rands sleeps evs H). Qed.
+Proof. intros c script rands sleeps evs H. exact (run_error true c script rands sleeps evs H). Qed.
 Print Assumptions C10_error_only_when_spent.
 
 (* --- how many back-offs a budget admits ------------------------------------------------------------------------ *)
@@ -121,7 +110,7 @@ Theorem C10_backoffs_bounded : forall c script rands sleeps,
   (0 < c_max_sleep c)%N ->
   (2 * n_plain (fst (run c script rands sleeps)) <= c_max_sleep c + 1)%N /\
   (1000 * n_excl (fst (run c script rands sleeps)) <= N.max excl_limit (c_max_sleep c) + 999)%N.
-Proof. intros c script rands sleeps M. exact (run_backoffs false c script rands sleeps M). Qed.
+Proof. intros c script rands sleeps M. exact (run_backoffs true c script rands sleeps M). Qed.
 Print Assumptions C10_backoffs_bounded.
 
 (* --- non-vacuity --------------------------------------------------------------------------------------------- *)
@@ -133,7 +122,7 @@ Example ex_stale_read :
   ([EAtt 0 false true false; EAtt 1 true false true; EAtt 2 true false true; EBo BoRPC 55; EBo BoBusy 1057], RPseudo).
 Proof. vm_compute. reflexivity. Qed.
 (* the hypothesis of C10_bounded is satisfiable, and the bound is reached: 10 RPC errors on the leader, then one try per follower *)
-Example ex_no_rearm : no_rearm c0 (repeat (ORpcErr Reachable) 40) [] [] /\
+Example ex_no_rearm : n_rearms (fst (run c0 (repeat (ORpcErr Reachable) 40) [] [])) = 0 /\
   n_attempts (fst (run c0 (repeat (ORpcErr Reachable) 40) [] [])) = 12.
 Proof. vm_compute. auto. Qed.
 Example ex_budget : snd (run (mkCfg RTLeader false true false false false false 120%N true (c_reps c0) false) (repeat (ORpcErr Reachable) 40) [] [73; 105]%N) = RError.
@@ -141,17 +130,16 @@ Proof. vm_compute. reflexivity. Qed.
 Example ex_write : fst (run (mkCfg RTFollower false false false false false false 100000%N true (c_reps c0) false) [OStaleCommand] [1] []) =
   [EAtt 2 false false false; EAtt 1 false false true].
 Proof. vm_compute. reflexivity. Qed.
-Example ex_lasso : n_attempts (fst (run c0 (lasso 1000) [] [])) = 2022.
-Proof. destruct (lasso_attempts 1000) as [A _]. exact A. Qed.
+(* regression for F10: the lasso now terminates — 4 re-arms (2 per ping-pong replica), then no replica is left *)
+Example ex_lasso_terminates : n_attempts (fst (run c0 (lasso 1000) [] [])) = 25 /\ n_rearms (fst (run c0 (lasso 1000) [] [])) = 4 /\
+  snd (run c0 (lasso 1000) [] []) = RPseudo.
+Proof. vm_compute. auto. Qed.
 
 (* forwarding: leader store unreachable from the client, the request goes through replica 1 (ForwardedHost = leader) *)
 Definition c_fwd : cfg := mkCfg RTLeader false true false false false false 100000%N true
   [fresh_rep Unreachable false false false; fresh_rep Reachable false false false; fresh_rep Reachable false false false] true.
 Example ex_forward : run c_fwd [] [] [] = ([EProxy 1; EAtt 0 false false false], RSuccess 0).
 Proof. vm_compute. reflexivity. Qed.
-(* the repair candidate stops the F10 lasso: 2 re-arms, then the selector gives up *)
-Example ex_rearm_once : n_attempts (fst (run_rearm_once c0 (lasso 1000) [] [])) = 23 /\ snd (run_rearm_once c0 (lasso 1000) [] []) = RPseudo.
-Proof. vm_compute. auto. Qed.
 (* budget of 120 ms: the third RPC back-off is refused *)
 Example ex_spent : let r := run (mkCfg RTLeader false true false false false false 120%N true (c_reps c0) false) (repeat (ORpcErr Reachable) 40) [] [73; 105]%N in
   snd r = RError /\ tot (fst r) = 178%N /\ n_plain (fst r) = 2%N.
